@@ -53,7 +53,7 @@ ContainsIn(a, b) ==
               \A j \in 1..Len(b.a) : \E i \in 1..Len(a.a) : ContainsIn(a.a[i], b.a[j])
          [] OTHER -> Cmp(a, b) = 0
 \* top level: an array also contains a bare scalar equal to one of its elements
-Contains(a, b) ==
+DocContains(a, b) ==
   IF a.k = "arr" /\ IsScalar(b) THEN \E i \in 1..Len(a.a) : Cmp(a.a[i], b) = 0
   ELSE ContainsIn(a, b)
 
@@ -146,8 +146,8 @@ TraverseCheckString(d, p) == \E s \in AllStrings(d) : PredHolds(p, s)
 
 ----------------------------------------------------------------------------
 (* editors *)
-RemoveAt(s, i) == Sub(s, 1, i - 1) \o Sub(s, i + 1, Len(s))
-InsertAt(s, i, x) == Sub(s, 1, i - 1) \o <<x>> \o Sub(s, i, Len(s))   \* x becomes s'[i]
+RemAt(s, i) == Sub(s, 1, i - 1) \o Sub(s, i + 1, Len(s))
+InsAt(s, i, x) == Sub(s, 1, i - 1) \o <<x>> \o Sub(s, i, Len(s))   \* x becomes s'[i]
 Filter(s, P(_)) ==
   LET RECURSIVE Go(_, _)
       Go(i, acc) == IF i > Len(s) THEN acc ELSE Go(i + 1, IF P(s[i]) THEN Append(acc, s[i]) ELSE acc)
@@ -164,7 +164,7 @@ DeleteByName(d, name) ==
 
 DeleteByIndex(d, i) ==
   IF d.k # "arr" THEN ErrR("InvalidJsonType")
-  ELSE LET p == ResolveIdx(i, Len(d.a)) IN IF p < 0 THEN OkD(d) ELSE OkD(Arr(RemoveAt(d.a, p + 1)))
+  ELSE LET p == ResolveIdx(i, Len(d.a)) IN IF p < 0 THEN OkD(d) ELSE OkD(Arr(RemAt(d.a, p + 1)))
 
 RECURSIVE DelKp(_, _)
 DelKp(d, kp) ==
@@ -173,12 +173,12 @@ DelKp(d, kp) ==
        IN IF d.k = "arr" /\ KpIsIndex(e)
           THEN LET p == ResolveIdx(e.i, Len(d.a))
                IN IF p < 0 THEN d
-                  ELSE IF Len(kp) = 1 THEN Arr(RemoveAt(d.a, p + 1))
+                  ELSE IF Len(kp) = 1 THEN Arr(RemAt(d.a, p + 1))
                   ELSE Arr([d.a EXCEPT ![p + 1] = DelKp(d.a[p + 1], Tail(kp))])
           ELSE IF d.k = "obj" /\ ~KpIsIndex(e)
           THEN LET i == FindKey(d.o, KpName(e))
                IN IF i = 0 THEN d
-                  ELSE IF Len(kp) = 1 THEN Obj(RemoveAt(d.o, i))
+                  ELSE IF Len(kp) = 1 THEN Obj(RemAt(d.o, i))
                   ELSE Obj([d.o EXCEPT ![i] = <<d.o[i][1], DelKp(d.o[i][2], Tail(kp))>>])
           ELSE d
 DeleteByKeypath(d, kp) == IF IsScalar(d) THEN ErrR("InvalidJsonType") ELSE OkD(DelKp(d, kp))
@@ -187,7 +187,7 @@ ArrayInsert(d, pos, new) ==
   LET l == ElemsOf(d)
       raw == IF pos < 0 THEN Len(l) + pos ELSE pos
       idx == IF raw < 0 THEN 0 ELSE IF raw > Len(l) THEN Len(l) ELSE raw
-  IN Arr(InsertAt(l, idx + 1, new))
+  IN Arr(InsAt(l, idx + 1, new))
 
 ObjectInsert(d, key, new, upd) ==
   IF d.k # "obj" THEN ErrR("InvalidObject")
